@@ -9,3 +9,4 @@ import LLBuild.Props.EngineImplSound
 import LLBuild.Props.EngineImplTerm
 import LLBuild.Props.EngineImplAsync
 import LLBuild.Props.EngineImplSched
+import LLBuild.Props.EngineImplSched2
